@@ -433,7 +433,7 @@ pub fn check(h: &History, ex: &Exec, obs: &mut Obs) -> Vec<Violation> {
     let rate = cfg.audio_effective().map(|a| a.rate).unwrap_or(0);
     let mut vcount = 0u64;
     for (i, (op, res)) in h.ops.iter().zip(ex.results.iter()).enumerate() {
-        if matches!(res, Res::Skipped | Res::Panic { .. }) {
+        if matches!(res, Res::Skipped) {
             break;
         }
         let mut j = Judgement::default();
@@ -486,6 +486,19 @@ pub fn check(h: &History, ex: &Exec, obs: &mut Obs) -> Vec<Violation> {
         // verdict
         let state_name = st.name();
         let ok = res.is_ok();
+        if let Res::Panic { msg, loc } = res {
+            // neither a success nor a returned error. A call the contract obliges to succeed must
+            // not end like that (panics on calls that violate something are C12's business)
+            if j.v.is_empty() && j.zones.is_empty() {
+                out.push(v(
+                    format!("panicked-but-valid|{}", op.name()),
+                    format!("call #{} {} in state {} violates no precondition but panicked at {}: {}", i, op.brief(), st.name(), loc, msg),
+                ));
+            } else {
+                obs.inconclusive += 1;
+            }
+            break;
+        }
         for z in &j.zones {
             obs.count(&format!("zone:{}", z), 1);
         }
